@@ -372,7 +372,7 @@ where
         let Store { map, qp, .. } = self;
         map.get_full_mut(item).map(|(index, _, p)| {
             swap(p, &mut new_priority);
-            let pos = unsafe { *qp.get_unchecked(index) };
+            let pos = qp[index];
             (new_priority, pos)
         })
     }
@@ -389,7 +389,7 @@ where
         let Store { map, qp, .. } = self;
         map.get_full_mut(item).map(|(index, _, p)| {
             priority_setter(p);
-            unsafe { *qp.get_unchecked(index) }
+            qp[index]
         })
     }
 
